@@ -90,9 +90,7 @@ def _sorted_afterwards(b, vec_expr, after_block):
 
 def _closure_class(prog, c_expr):
     """class of a fold/reduce closure: 'commutative' if every Ok/plain result is op(acc, term) with a commutative op"""
-    if c_expr[0] != "closure":
-        return "unknown"
-    cb = prog.body(c_expr[1])
+    cb, first = q.callable_body(prog, c_expr)       # a closure, or a function item passed by name (`try_reduce(id, faster_of)`)
     if cb is None:
         return "unknown"
     outs = []
@@ -107,7 +105,7 @@ def _closure_class(prog, c_expr):
         o = mir.strip(o)
         if not (o[0] == "call" and o[1].split("::")[-1] in COMMUTATIVE_CALLS and len(o[2]) == 2):
             return "other:" + sig(o)[:60]
-        if not any(a[0] == "param" and a[1] == 2 for a in o[2]):
+        if not any(a[0] == "param" and a[1] == first for a in o[2]):
             return "no-accumulator:" + sig(o)[:60]
     return "commutative"
 
@@ -506,8 +504,15 @@ def r5_globals(ctx):
     names = sorted(mir.norm_name(it["name"]) for it in statics)
     allowed = {"melstf::stats::STAT_APPLY_SECS", "melstf::stats::STAT_SMT_GET_SECS", "melstf::stats::STAT_SMT_INSERT_SECS", "melstf::stats::STAT_MELVM_RUNTIME_SECS",
                "melstf::stats::STAT_MELPOW_SECS", "melstf::state::melmint::microergs_per_dosc::INFLATOR_TABLE"}
+    from rules.props import c10
     for n in names:
-        r.check(n in allowed, "static/" + n.split("::")[-1], "known static %s" % n, "new global state: static %s (%s)" % (n, [it["ty"] for it in statics if mir.norm_name(it["name"]) == n]))
+        its = [it for it in statics if mir.norm_name(it["name"]) == n]
+        if n in allowed:
+            r.ok("static/" + n.split("::")[-1], "known static %s" % n)
+        elif any(c10.mutable_static(it) for it in its):
+            r.violation("static:" + n.split("::")[-1], "new mutable global state: static %s (%s)" % (n, [it["ty"] for it in its]))
+        else:
+            r.ok("static/" + n.split("::")[-1], "immutable static %s" % n)
     # who reads StatCounter::value
     val = prog.body("melstf::stats::StatCounter::value")
     if val is not None:
